@@ -430,82 +430,50 @@ def routes(ctx):
         r.check(got == w, '%s emits %s' % (name, sorted(w)), fn, construct=P + name, key='families',
                 msg='%s emits the statement families %s; its sibling route emits %s -- part of the model is missing from (or extra in) the '
                     'output of this route' % (name, sorted(got), sorted(w)))
-    # unfiltered collections
-    coll = {'class': ('metamodel.metaclasses', ['sorted(metamodel.metaclasses.keys())', 'metamodel.metaclasses.values()']),
-            'association': ('metamodel.associations', ['sorted(metamodel.associations, key=orderby)', 'sorted(metamodel.associations, key=lambda x: x.rel_id)']),
-            'instance': ('metamodel.instances', ['metamodel.instances']),
-            'index': ('metaclass.indices', ['metaclass.indices.items()'])}
-    allowed_iters = set(x for _, lst in coll.values() for x in lst)
-    for name in sorted(want) + ['serialize_classes', 'serialize_associations']:
+    # what every route writes for a symbolic model of two classes (two identifiers each), two associations, two instances
+    from .persistflow import Flow
+    flow = Flow(repo)
+    expected = {
+        'class': [('class', 'K1'), ('class', 'K2')],
+        'association': [('assoc', 'A1'), ('assoc', 'A2')],
+        'instance': [('inst', 'I1'), ('inst', 'I2')],
+        'unique-index': [('index', 'IDX_MC_%s_%d' % (k, i), 'MC_%s.kind' % k, "', '.join(ATTRS_MC_%s_%d)" % (k, i)) for k in ('K1', 'K2') for i in (1, 2)],
+    }
+    fam_of = {'class': 'class', 'assoc': 'association', 'inst': 'instance', 'index': 'unique-index'}
+    for name, w in sorted(want.items()) + [('serialize_classes', {'class'}), ('serialize_associations', {'association'})]:
         fn = repo.func(P + name)
-        for n in ast.walk(fn):
-            it = None
-            if isinstance(n, ast.For):
-                it = n.iter
-            elif isinstance(n, ast.comprehension):
-                it = n.iter
-            if it is None:
+        try:
+            items = flow.items(name)
+        except AnalysisError as e:
+            if 'iterable `' in str(e) or 'comprehension `' in str(e):
+                r.violation('%s iterates `%s`, which is not one of the whole model collections (metaclasses, associations, instances, the '
+                            'indices of a metaclass): elements can be dropped or merged on the way' % (name, str(e).split('`')[1]), fn,
+                            construct=P + name, key='iter-other')
                 continue
-            s = src(it)
-            filt = isinstance(n, ast.comprehension) and n.ifs
-            r.check(s in allowed_iters and not filt, '%s iterates the whole collection `%s`' % (name, s), it, construct=P + name, key='iter ' + s,
-                    msg='%s iterates `%s`%s, not one of the unfiltered model collections %s' % (name, s, ' with a filter' if filt else '', sorted(allowed_iters)))
-            # no early exit / conditional skip in the emitting loops
-            if isinstance(n, ast.For):
-                skips = [x for x in ast.walk(n) if isinstance(x, (ast.Break, ast.Continue))]
-                conds = [x for x in n.body if isinstance(x, ast.If)]
-                r.check(not skips and not conds, '%s emits for every element' % name, n, construct=P + name, key='skip ' + s,
-                        msg='%s skips elements of `%s` (%s)' % (name, s, 'break/continue' if skips else ('if ' + src(conds[0].test) if conds else '')))
-    # no emitter may run on a stale loop variable (a loop that was meant to be nested but sits after the loop it depends on)
-    for name in sorted(want) + ['serialize_classes', 'serialize_associations']:
-        fn = repo.func(P + name)
-        for blk in [n for n in ast.walk(fn) if hasattr(n, 'body') and isinstance(getattr(n, 'body'), list)]:
-            stmts = blk.body
-            for i, st in enumerate(stmts):
-                if not isinstance(st, ast.For):
-                    continue
-                bound = set(x.id for x in ast.walk(st.target) if isinstance(x, ast.Name))
-                for inner in ast.walk(st):
-                    if isinstance(inner, ast.Assign):
-                        bound |= set(t.id for t in inner.targets if isinstance(t, ast.Name))
-                bound -= {'s', 'f'}
-                for later in stmts[i + 1:]:
-                    rebound = set(t.id for x in ast.walk(later) if isinstance(x, ast.Assign) for t in x.targets if isinstance(t, ast.Name))
-                    used = set(x.id for x in ast.walk(later) if isinstance(x, ast.Name) and isinstance(x.ctx, ast.Load)) & bound
-                    stale = used - rebound - set(x.id for x in ast.walk(later) if isinstance(later, ast.For) and isinstance(x, ast.Name) and x in ast.walk(later.target))
-                    r.check(not stale, '%s: statements after the loop over `%s` do not depend on its loop variables' % (name, src(st.iter)), later,
-                            construct=P + name, key='stale-loop-variable %s' % sorted(stale),
-                            msg='%s: `%s` runs AFTER the loop over `%s` but reads %s, which is bound inside that loop: it only sees the last '
-                                'element, so the statements of all other elements are missing' % (name, src(later).split('\n')[0][:70], src(st.iter), sorted(stale)))
-    # every produced text reaches the file
-    for name in ('persist_instances', 'persist_schema', 'persist_unique_identifiers', 'persist_database'):
-        fn = repo.func(P + name)
-        produced = [n for n in ast.walk(fn) if isinstance(n, ast.Assign) and isinstance(n.targets[0], ast.Name) and n.targets[0].id == 's']
-        writes = [n for n in ast.walk(fn) if isinstance(n, ast.Call) and src(n.func) == 'f.write' and src(n.args[0]) == 's']
-        ok = len(produced) == len(writes) and produced
-        for a in produced:
-            blk = a._parent.body if hasattr(a._parent, 'body') else []
-            if a in blk:
-                i = blk.index(a)
-                nxt = [x for x in blk[i + 1:i + 2] if isinstance(x, ast.Expr) and src(x.value) == 'f.write(s)']
-                ok = ok and bool(nxt)
-        r.check(bool(ok), '%s writes every produced statement (%d)' % (name, len(produced)), fn, construct=P + name, key='written',
-                msg='%s produces %d statement texts but writes %d' % (name, len(produced), len(writes)))
-    # the four copies of the unique-index format agree
-    fmts = []
-    for name in ('serialize_unique_identifiers', 'persist_unique_identifiers', 'persist_database'):
-        fn = repo.func(P + name)
-        for n in ast.walk(fn):
-            if isinstance(n, ast.BinOp) and isinstance(n.op, ast.Mod) and isinstance(n.left, ast.Constant) and \
-                    str(n.left.value).startswith('CREATE UNIQUE INDEX'):
-                fmts.append((name, n.left.value, src(n.right), n))
-    r.check(len(fmts) == 3 and len(set((f, a) for _, f, a, _ in fmts)) == 1, 'all CREATE UNIQUE INDEX emitters use the same format and arguments',
-            fmts[0][3] if fmts else repo.func(P + 'persist_database'), construct='xtuml.persist', key='index-format',
-            msg='CREATE UNIQUE INDEX is formatted differently by different routes: %s' % [(n, f, a) for n, f, a, _ in fmts])
-    if fmts:
-        r.check(fmts[0][1] == 'CREATE UNIQUE INDEX %s ON %s (%s);\n' and fmts[0][2] == '(index_name, metaclass.kind, attribute_names)',
-                'index statement = (index name, class, attribute list)', fmts[0][3], construct='xtuml.persist', key='index-slots',
-                msg='CREATE UNIQUE INDEX is written as %r %% %s' % (fmts[0][1], fmts[0][2]))
+            if 'condition atom' in str(e):
+                r.violation('%s makes what it writes depend on a condition (%s): every element of the model collections must be written'
+                            % (name, str(e).split('`')[1] if '`' in str(e) else e), fn, construct=P + name, key='conditional-emission')
+                continue
+            raise
+        stray = [x for x in items if x[0] in ('other', 'text')]
+        r.check(not stray, '%s writes statements only' % name, fn, construct=P + name, key='stray-text',
+                msg='%s writes text that is not a statement of the model: %s' % (name, stray[:3]))
+        for fam, exp in sorted(expected.items()):
+            got = [x for x in items if fam_of.get(x[0]) == fam]
+            if fam in w:
+                r.check(got == exp, '%s writes every %s of the model once, in collection order' % (name, fam), fn, construct=P + name,
+                        key='iter %s' % fam,
+                        msg='for a model with two classes (two identifiers each), two associations and two instances %s writes the %s statements %s; '
+                            'expected %s -- elements are missing, repeated, taken from a stale loop variable or formatted differently from the '
+                            'sibling routes' % (name, fam, got, exp))
+            else:
+                r.check(not got, '%s writes no %s statements' % (name, fam), fn, construct=P + name, key='extra %s' % fam,
+                        msg='%s also writes %s statements: %s' % (name, fam, got[:2]))
+        if 'association' in w:
+            notes = [t for t in flow.notes.get(name, []) if t[0] == 'assoc-order'] + \
+                [t for sub in ('serialize_associations', 'serialize_schema') for t in flow.notes.get(sub, []) if t[0] == 'assoc-order' and name.startswith('serialize')]
+            r.check(all(t[1] is not None for t in notes) and notes, '%s writes the associations in a sorted order' % name, fn, construct=P + name,
+                    key='assoc-sorted', msg='%s writes the associations in the order of the model list, not sorted by their number' % name)
     # serialize() dispatch
     sz = repo.func(P + 'serialize')
     disp = {}
